@@ -19,15 +19,16 @@ def contextValue (host : Host F) (key : Val F) : Val F :=
 theorem handlerSim_resolveContext (HR : HostRefines S host) {s : σ} {m : MState F} (hsim : Sim S P s m)
     {res : Outcome (Option Nat × σ)} {key : Val F} (h : ResolveContext S s res none key) :
     ∃ s1, res = .ok (none, s1) ∧ S.cursor s1 = S.cursor s ∧
-      SimD S P s1 (contextValue host key :: m.regs) m.vals m.frames := by
+      SimD S P s1 (contextValue host key :: m.regs) m.vals m.frames ∧ DecKept S s s1 := by
   obtain ⟨s0, e0, hk⟩ := h
   have hd0 : SimD S P s0 m.regs m.vals m.frames :=
     SimD.ofEff hsim.2 e0 (Sim.tail e0 hsim.2.regs) (Sim.tail e0 hsim.2.vals)
   have unitCase : Pushed S s0 res none (S.regs s0) .unit →
-      ∃ s1, res = .ok (none, s1) ∧ S.cursor s1 = S.cursor s ∧ SimD S P s1 (.unit :: m.regs) m.vals m.frames := by
+      ∃ s1, res = .ok (none, s1) ∧ S.cursor s1 = S.cursor s ∧ SimD S P s1 (.unit :: m.regs) m.vals m.frames ∧
+        DecKept S s s1 := by
     intro ⟨u, s1, h1, d1, e1⟩
     exact ⟨s1, h1, e1.keeps.cur.trans e0.keeps.cur,
-      SimD.ofEff hd0 e1 (.cons d1 (Sim.tail e1 hd0.regs)) (Sim.tail e1 hd0.vals)⟩
+      SimD.ofEff hd0 e1 (.cons d1 (Sim.tail e1 hd0.regs)) (Sim.tail e1 hd0.vals), (e0.keeps.trans e1.keeps).dec⟩
   cases key
   case sym sy =>
     simp only [] at hk
@@ -42,7 +43,7 @@ theorem handlerSim_resolveContext (HR : HostRefines S host) {s : σ} {m : MState
       rw [h1] at hk
       simp only [] at hk
       exact ⟨s1, hk, he.keeps.cur.trans e0.keeps.cur,
-        SimD.ofHEff hd0 he (.cons d1 (decodesList_keeps he.keeps hd0.regs))⟩
+        SimD.ofHEff hd0 he (.cons d1 (decodesList_keeps he.keeps hd0.regs)), (e0.keeps.trans he.keeps).dec⟩
     | none =>
       rw [hh] at ha
       obtain ⟨s1, h1, he⟩ := ha
@@ -51,7 +52,8 @@ theorem handlerSim_resolveContext (HR : HostRefines S host) {s : σ} {m : MState
       have hd1 : SimD S P s1 m.regs m.vals m.frames := SimD.ofHEff hd0 he (decodesList_keeps he.keeps hd0.regs)
       obtain ⟨u, s2, h2, d2, e2⟩ := hk
       exact ⟨s2, h2, e2.keeps.cur.trans (he.keeps.cur.trans e0.keeps.cur),
-        SimD.ofEff hd1 e2 (.cons d2 (Sim.tail e2 hd1.regs)) (Sim.tail e2 hd1.vals)⟩
+        SimD.ofEff hd1 e2 (.cons d2 (Sim.tail e2 hd1.regs)) (Sim.tail e2 hd1.vals),
+        (e0.keeps.trans (he.keeps.trans e2.keeps)).dec⟩
   all_goals exact unitCase hk
 
 /-- the machine state `resolveStep` produces, as far as the simulation relation looks at it -/
@@ -108,11 +110,11 @@ theorem stepSim_resolve (L : StoreLaws S) (HR : HostRefines S host) (fuel : Nat)
   -- from a `ResolvedTo` and a related final state to the handler simulation
   have close : ∀ (v : Val F) (s1 : σ), ResolvedTo m (resolveStep fo host m key) v →
       Model.Runtime.resolve fo S fuel k s = .ok (none, s1) → S.cursor s1 = S.cursor s →
-      SimD S P s1 (v :: m.regs) m.vals m.frames →
+      SimD S P s1 (v :: m.regs) m.vals m.frames → DecKept S s s1 →
       HandlerSim S P s (Model.Runtime.resolve fo S fuel k s) (seqR m (resolveStep fo host m key)) := by
-    intro v s1 ⟨md, hmd, hr, hv, hf⟩ h1 hc1 hd1
+    intro v s1 ⟨md, hmd, hr, hv, hf⟩ h1 hc1 hd1 hk1
     rw [hmd]
-    exact ⟨none, s1, h1, by simp [hsim.1], hc1, by rw [hr, hv, hf]; exact hd1⟩
+    exact ⟨none, s1, h1, by simp [hsim.1], hc1, by rw [hr, hv, hf]; exact hd1, hk1⟩
   have hvals := hsim.2.vals
   cases hmv : m.vals with
   | nil =>
@@ -120,8 +122,8 @@ theorem stepSim_resolve (L : StoreLaws S) (HR : HostRefines S host) (fuel : Nat)
     have hsv : S.vals s = [] := by
       generalize S.vals s = sv at hvals
       cases hvals; rfl
-    obtain ⟨s1, h1, hc1, hd1⟩ := handlerSim_resolveContext HR hsim (C17_refine_resolve_no_input fo L fuel hsv hdk)
-    exact close _ s1 (resolveStep_context fo m key (by rw [hmv]; trivial)) h1 hc1 hd1
+    obtain ⟨s1, h1, hc1, hd1, hk1⟩ := handlerSim_resolveContext HR hsim (C17_refine_resolve_no_input fo L fuel hsv hdk)
+    exact close _ s1 (resolveStep_context fo m key (by rw [hmv]; trivial)) h1 hc1 hd1 hk1
   | cons cur vs =>
     rw [hmv] at hvals
     obtain ⟨c, cs, hsv, dc, _⟩ := decodesList_cons_inv hvals
@@ -132,15 +134,15 @@ theorem stepSim_resolve (L : StoreLaws S) (HR : HostRefines S host) (fuel : Nat)
       rw [hga] at h
       obtain ⟨a, s1, h1, d1, e1⟩ := h
       exact close v s1 (resolveStep_found fo m key cur v vs hmv hga) h1 e1.keeps.cur
-        (SimD.ofEff hsim.2 e1 (.cons d1 (Sim.tail e1 hsim.2.regs)) (Sim.tail e1 hsim.2.vals))
+        (SimD.ofEff hsim.2 e1 (.cons d1 (Sim.tail e1 hsim.2.regs)) (Sim.tail e1 hsim.2.vals)) e1.keeps.dec
     | none =>
       rw [hga] at h
-      obtain ⟨s1, h1, hc1, hd1'⟩ := handlerSim_resolveContext HR hsim h
-      exact close _ s1 (resolveStep_context fo m key (by rw [hmv]; exact Or.inl hga)) h1 hc1 hd1'
+      obtain ⟨s1, h1, hc1, hd1', hk1⟩ := handlerSim_resolveContext HR hsim h
+      exact close _ s1 (resolveStep_context fo m key (by rw [hmv]; exact Or.inl hga)) h1 hc1 hd1' hk1
     | unsupported =>
       rw [hga] at h
-      obtain ⟨s1, h1, hc1, hd1'⟩ := handlerSim_resolveContext HR hsim h
-      exact close _ s1 (resolveStep_context fo m key (by rw [hmv]; exact Or.inr hga)) h1 hc1 hd1'
+      obtain ⟨s1, h1, hc1, hd1', hk1⟩ := handlerSim_resolveContext HR hsim h
+      exact close _ s1 (resolveStep_context fo m key (by rw [hmv]; exact Or.inr hga)) h1 hc1 hd1' hk1
     | err e =>
       -- the machine errs (inside the domain never with the "not modelled" marker): nothing to show
       have hne := getAccess_ne_unsupportedErr fo (key := key) hd1
